@@ -89,134 +89,7 @@ func runC04(c *Ctx) {
 
 	// R2 best-so-far
 	c.Rule("R2")
-	for _, fn := range []string{"(*dht.IpfsDHT).processValues", "(*dht/fullrt.FullRT).processValues"} {
-		f := c.Fn(fn)
-		info := f.Info()
-		cf := f.CFG()
-		best := resultObj(f, "best")
-		aborted := resultObj(f, "aborted")
-		newVal := paramObj(f, "newVal")
-		keyParam := paramObj(f, "key")
-		c.Anchor(best != nil && aborted != nil && newVal != nil && keyParam != nil, "%s: named results/params not found", fn)
-		// accepted facts: best == nil, or sel == 1 where sel := Select(key, {best, X})
-		selOK := func(ft eng.Fact, newcomer ast.Expr) bool {
-			if x, isNilF, ok := ft.NilFact(); ok && isNilF && eng.IsObj(info, x, best) {
-				return true
-			}
-			x, op, cst, ok := ft.IntCmp()
-			if !ok || op != eng.EQL || cst != 1 {
-				return false
-			}
-			selObj := eng.ObjOf(info, x)
-			if selObj == nil {
-				return false
-			}
-			def := f.LocalVarDef(selObj)
-			call, isSel := eng.IsCallTo(info, defOrNil(def), fnSelect)
-			if !isSel || len(call.Args) != 2 || !eng.IsObj(info, call.Args[0], keyParam) {
-				return false
-			}
-			cl, isCL := eng.Unparen(call.Args[1]).(*ast.CompositeLit)
-			if !isCL || len(cl.Elts) != 2 || !eng.IsObj(info, cl.Elts[0], best) {
-				return false
-			}
-			return newcomer == nil || eng.SameExpr(info, cl.Elts[1], newcomer)
-		}
-		nAssign := 0
-		for _, as := range assignsTo(f, func(l ast.Expr) bool { return eng.IsObj(info, l, best) }) {
-			for i, l := range as.Lhs {
-				if !eng.IsObj(info, l, best) {
-					continue
-				}
-				nAssign++
-				rhs := rhsFor(as, i)
-				ok := cf.GuardedBySet(cf.LocOf(as), func(ft eng.Fact) bool { return selOK(ft, rhs) })
-				c.Check(K(f.Name, "best = "+short(rhs)), as.Pos(), ok,
-					"best changes only when there was no best or Select(key, {best, v}) returned the newcomer's index", "assignment reachable without that test")
-			}
-		}
-		c.Check(K(f.Name, "assigns best"), f.Pos(), nAssign >= 1, "processValues updates best", "no assignment found")
-		// newVal calls: result assigned to aborted; better==true only under the same guard
-		calls := f.Calls("var:newVal")
-		c.Check(K(f.Name, "calls newVal"), f.Pos(), len(calls) >= 3, "processValues reports every received value", "found "+itoa(len(calls))+" calls")
-		for i, call := range calls {
-			as, isAs := c.P.Parent(call).(*ast.AssignStmt)
-			kept := isAs && len(as.Lhs) == 1 && eng.IsObj(info, as.Lhs[0], aborted)
-			c.Check(K(f.Name, "newVal#"+itoa(i)+" result kept"), call.Pos(), kept,
-				"the callback's abort verdict is stored in `aborted` (a dropped verdict lets the search run on after it was stopped)", "result of newVal discarded")
-			if len(call.Args) == 3 && isBoolConst(info, call.Args[2], true) {
-				ok := cf.GuardedBySet(cf.LocOf(call), func(ft eng.Fact) bool { return selOK(ft, nil) })
-				c.Check(K(f.Name, "newVal#"+itoa(i)+" better=true"), call.Pos(), ok, "a value is flagged better only when it replaced best", "better=true reachable without the Select test")
-			} else if len(call.Args) == 3 {
-				c.Check(K(f.Name, "newVal#"+itoa(i)+" better=false"), call.Pos(), isBoolConst(info, call.Args[2], false), "the better flag is a constant per branch", "non-constant better flag")
-			}
-		}
-		// the loop stops once aborted
-		abortGuard := false
-		var comms []eng.Loc
-		for _, sel := range f.Selects() {
-			for _, sc := range eng.SelectCases(info, sel) {
-				if sc.Clause.Comm != nil {
-					comms = append(comms, cf.LocOf(sc.Clause.Comm))
-				}
-			}
-		}
-		abortGuard = len(comms) > 0
-		for _, call := range calls {
-			// from every report, the next receive is reachable only over the `!aborted` edge
-			reach, _ := cf.Reach(cf.LocOf(call), eng.LocSet(comms...), eng.ReachOpt{CutEdge: func(b *eng.Block, i int) bool {
-				for _, ft := range cf.EdgeFacts(b, i) {
-					if o, truth, ok := ft.BoolVar(); ok && !truth && o == eng.Object(aborted) {
-						return true
-					}
-				}
-				return false
-			}})
-			if reach {
-				abortGuard = false
-			}
-		}
-		c.Check(K(f.Name, "abort ends loop"), f.Pos(), abortGuard, "once aborted the loop returns before receiving another value", "no `if aborted { return }` that leaves the loop")
-	}
-	for _, fn := range []string{"(*dht.IpfsDHT).searchValueQuorum", "(*dht/fullrt.FullRT).searchValueQuorum"} {
-		f := c.Fn(fn)
-		out := paramObj(f, "out")
-		c.Anchor(out != nil, "%s: parameter out not found", fn)
-		n := 0
-		for _, s := range f.SendsOn(out) {
-			n++
-			g := s.F
-			better := paramObj(g, "better")
-			ok, _ := g.CFG().Guarded(g.CFG().LocOf(s.Send), func(ft eng.Fact) bool {
-				o, truth, isB := ft.BoolVar()
-				return isB && truth && better != nil && o == eng.Object(better)
-			})
-			c.Check(K(g.Name, "send on out"), s.Send.Pos(), ok, "a value is streamed to the caller only when it is better than all before", "send not guarded by `better`")
-		}
-		c.Check(K(f.Name, "streams"), f.Pos(), n >= 1, "searchValueQuorum streams values", "no send on out")
-		// the better value is streamed before the search may be stopped: every `return true`
-		// (abort) of the callback is reached only after the `better` test
-		for _, g := range f.Lits {
-			better := paramObj(g, "better")
-			if better == nil {
-				continue
-			}
-			gcf := g.CFG()
-			ginfo := g.Info()
-			var tests []eng.Loc
-			for _, b := range gcf.G.Blocks {
-				if cond := gcf.Cond(b); b.Live && cond != nil && eng.Mentions(ginfo, cond, better) {
-					tests = append(tests, gcf.LocOf(cond))
-				}
-			}
-			for _, ret := range gcf.Returns() {
-				if len(ret.Results) == 1 && isBoolConst(ginfo, ret.Results[0], true) {
-					ok, w := gcf.MustPass(gcf.Entry(), eng.LocSet(gcf.LocOf(ret)), eng.LocSet(tests...))
-					c.CheckW(K(g.Name, "stream before stop"), ret.Pos(), ok, "a better value is streamed before the quorum test may end the search", "the abort return is reachable without passing the `better` test", gcf.DescribePath(w))
-				}
-			}
-		}
-	}
+	c04R2(c)
 
 	// R3
 	c.Rule("R3")
@@ -359,4 +232,136 @@ func resultObj(f *eng.Func, name string) *eng.Var {
 func isErrNotFound(info *eng.Info, e ast.Expr) bool {
 	o := eng.ObjOf(info, e)
 	return o != nil && o.Pkg() != nil && o.Pkg().Path() == "github.com/libp2p/go-libp2p/core/routing" && o.Name() == "ErrNotFound"
+}
+
+// c04R2: best-so-far discipline of processValues / searchValueQuorum (both clients).
+func c04R2(c *Ctx) {
+	for _, fn := range []string{"(*dht.IpfsDHT).processValues", "(*dht/fullrt.FullRT).processValues"} {
+		f := c.Fn(fn)
+		info := f.Info()
+		cf := f.CFG()
+		best := resultObj(f, "best")
+		aborted := resultObj(f, "aborted")
+		newVal := paramObj(f, "newVal")
+		keyParam := paramObj(f, "key")
+		c.Anchor(best != nil && aborted != nil && newVal != nil && keyParam != nil, "%s: named results/params not found", fn)
+		// accepted facts: best == nil, or sel == 1 where sel := Select(key, {best, X})
+		selOK := func(ft eng.Fact, newcomer ast.Expr) bool {
+			if x, isNilF, ok := ft.NilFact(); ok && isNilF && eng.IsObj(info, x, best) {
+				return true
+			}
+			x, op, cst, ok := ft.IntCmp()
+			if !ok || op != eng.EQL || cst != 1 {
+				return false
+			}
+			selObj := eng.ObjOf(info, x)
+			if selObj == nil {
+				return false
+			}
+			def := f.LocalVarDef(selObj)
+			call, isSel := eng.IsCallTo(info, defOrNil(def), fnSelect)
+			if !isSel || len(call.Args) != 2 || !eng.IsObj(info, call.Args[0], keyParam) {
+				return false
+			}
+			cl, isCL := eng.Unparen(call.Args[1]).(*ast.CompositeLit)
+			if !isCL || len(cl.Elts) != 2 || !eng.IsObj(info, cl.Elts[0], best) {
+				return false
+			}
+			return newcomer == nil || eng.SameExpr(info, cl.Elts[1], newcomer)
+		}
+		nAssign := 0
+		for _, as := range assignsTo(f, func(l ast.Expr) bool { return eng.IsObj(info, l, best) }) {
+			for i, l := range as.Lhs {
+				if !eng.IsObj(info, l, best) {
+					continue
+				}
+				nAssign++
+				rhs := rhsFor(as, i)
+				ok := cf.GuardedBySet(cf.LocOf(as), func(ft eng.Fact) bool { return selOK(ft, rhs) })
+				c.Check(K(f.Name, "best = "+short(rhs)), as.Pos(), ok,
+					"best changes only when there was no best or Select(key, {best, v}) returned the newcomer's index", "assignment reachable without that test")
+			}
+		}
+		c.Check(K(f.Name, "assigns best"), f.Pos(), nAssign >= 1, "processValues updates best", "no assignment found")
+		// newVal calls: result assigned to aborted; better==true only under the same guard
+		calls := f.Calls("var:newVal")
+		c.Check(K(f.Name, "calls newVal"), f.Pos(), len(calls) >= 3, "processValues reports every received value", "found "+itoa(len(calls))+" calls")
+		for i, call := range calls {
+			as, isAs := c.P.Parent(call).(*ast.AssignStmt)
+			kept := isAs && len(as.Lhs) == 1 && eng.IsObj(info, as.Lhs[0], aborted)
+			c.Check(K(f.Name, "newVal#"+itoa(i)+" result kept"), call.Pos(), kept,
+				"the callback's abort verdict is stored in `aborted` (a dropped verdict lets the search run on after it was stopped)", "result of newVal discarded")
+			if len(call.Args) == 3 && isBoolConst(info, call.Args[2], true) {
+				ok := cf.GuardedBySet(cf.LocOf(call), func(ft eng.Fact) bool { return selOK(ft, nil) })
+				c.Check(K(f.Name, "newVal#"+itoa(i)+" better=true"), call.Pos(), ok, "a value is flagged better only when it replaced best", "better=true reachable without the Select test")
+			} else if len(call.Args) == 3 {
+				c.Check(K(f.Name, "newVal#"+itoa(i)+" better=false"), call.Pos(), isBoolConst(info, call.Args[2], false), "the better flag is a constant per branch", "non-constant better flag")
+			}
+		}
+		// the loop stops once aborted
+		abortGuard := false
+		var comms []eng.Loc
+		for _, sel := range f.Selects() {
+			for _, sc := range eng.SelectCases(info, sel) {
+				if sc.Clause.Comm != nil {
+					comms = append(comms, cf.LocOf(sc.Clause.Comm))
+				}
+			}
+		}
+		abortGuard = len(comms) > 0
+		for _, call := range calls {
+			// from every report, the next receive is reachable only over the `!aborted` edge
+			reach, _ := cf.Reach(cf.LocOf(call), eng.LocSet(comms...), eng.ReachOpt{CutEdge: func(b *eng.Block, i int) bool {
+				for _, ft := range cf.EdgeFacts(b, i) {
+					if o, truth, ok := ft.BoolVar(); ok && !truth && o == eng.Object(aborted) {
+						return true
+					}
+				}
+				return false
+			}})
+			if reach {
+				abortGuard = false
+			}
+		}
+		c.Check(K(f.Name, "abort ends loop"), f.Pos(), abortGuard, "once aborted the loop returns before receiving another value", "no `if aborted { return }` that leaves the loop")
+	}
+	for _, fn := range []string{"(*dht.IpfsDHT).searchValueQuorum", "(*dht/fullrt.FullRT).searchValueQuorum"} {
+		f := c.Fn(fn)
+		out := paramObj(f, "out")
+		c.Anchor(out != nil, "%s: parameter out not found", fn)
+		n := 0
+		for _, s := range f.SendsOn(out) {
+			n++
+			g := s.F
+			better := paramObj(g, "better")
+			ok, _ := g.CFG().Guarded(g.CFG().LocOf(s.Send), func(ft eng.Fact) bool {
+				o, truth, isB := ft.BoolVar()
+				return isB && truth && better != nil && o == eng.Object(better)
+			})
+			c.Check(K(g.Name, "send on out"), s.Send.Pos(), ok, "a value is streamed to the caller only when it is better than all before", "send not guarded by `better`")
+		}
+		c.Check(K(f.Name, "streams"), f.Pos(), n >= 1, "searchValueQuorum streams values", "no send on out")
+		// the better value is streamed before the search may be stopped: every `return true`
+		// (abort) of the callback is reached only after the `better` test
+		for _, g := range f.Lits {
+			better := paramObj(g, "better")
+			if better == nil {
+				continue
+			}
+			gcf := g.CFG()
+			ginfo := g.Info()
+			var tests []eng.Loc
+			for _, b := range gcf.G.Blocks {
+				if cond := gcf.Cond(b); b.Live && cond != nil && eng.Mentions(ginfo, cond, better) {
+					tests = append(tests, gcf.LocOf(cond))
+				}
+			}
+			for _, ret := range gcf.Returns() {
+				if len(ret.Results) == 1 && isBoolConst(ginfo, ret.Results[0], true) {
+					ok, w := gcf.MustPass(gcf.Entry(), eng.LocSet(gcf.LocOf(ret)), eng.LocSet(tests...))
+					c.CheckW(K(g.Name, "stream before stop"), ret.Pos(), ok, "a better value is streamed before the quorum test may end the search", "the abort return is reachable without passing the `better` test", gcf.DescribePath(w))
+				}
+			}
+		}
+	}
 }
